@@ -280,6 +280,77 @@ def check_units(prog, rep):
                 why['count'] = 'rejects token counts %s' % [k for k, v in enumerate(vals) if v]
         except (AnalysisIncomplete, CannotEvaluate) as e:
             why['error'] = str(e)
+    if any(not found.get(k_) or not found[k_][0] for k_ in ('count', 'numeric', 'positive', 'unit')):
+        # the same four rejections read off the wrapper terms of the parser (validation moved into helpers, early returns
+        # instead of one `if ... raise`): every `raise` with the conditions it runs under; a condition on the number of
+        # tokens is evaluated for 0..4 tokens, one on the parsed number for -1, 0, 1/2
+        from ..wterm import WT, eval_cond, key as tkey, walk as twalk, show as tshow
+        isnum = m.funcs.get('_is_numeric')
+        w_ = WT(prog, depth=4, keep=[isnum] if isnum is not None else [])
+        try:
+            w_.run(gd)
+            raises_ = list(w_.raises)
+        except Exception:      # noqa
+            raises_ = []
+        lens_, floats_ = {}, {}
+        for gs_, nd_ in raises_:
+            for g_ in gs_:
+                for x in twalk(g_):
+                    if isinstance(x, tuple) and len(x) >= 3 and x[0] == 'call' and x[1] == ('global', 'len') and len(x[2]) == 1 and 're.split' in tshow(x[2][0], 400):
+                        lens_[tkey(x)] = x
+                    if isinstance(x, tuple) and len(x) >= 3 and x[0] == 'call' and x[1] == ('global', 'float') and len(x[2]) == 1 and \
+                            x[2][0][0] == 'index' and x[2][0][2] == ('const', 0) and 're.split' in tshow(x[2][0][1], 400):
+                        floats_[tkey(x)] = x
+
+        def fires(gs_, terms):
+            """True / False when every condition is decided by `terms`, None otherwise"""
+            vals = []
+            for g_ in gs_:
+                try:
+                    vals.append(eval_cond(g_, {'__terms__': terms}))
+                except (ValueError, KeyError, TypeError):
+                    return None
+            return all(vals)
+        if len(lens_) == 1 and not (found.get('count') and found['count'][0]):
+            lk = next(iter(lens_))
+            rej = []
+            for n_ in range(5):
+                rej.append(any(fires(gs_, {lk: n_}) is True for gs_, nd_ in raises_))
+            nd0 = next((nd_ for gs_, nd_ in raises_ if fires(gs_, {lk: 0}) is True), gd.node)
+            found['count'] = (rej == [True, False, False, True, True], nd0)
+            why['count'] = 'rejects token counts %s' % [k_ for k_, v_ in enumerate(rej) if v_]
+        if len(floats_) == 1 and not (found.get('positive') and found['positive'][0]):
+            fk = next(iter(floats_))
+            rej = []
+            hit = None
+            for d_ in (Fraction(-1), Fraction(0), Fraction(1, 2)):
+                r_ = False
+                for gs_, nd_ in raises_:
+                    mine = [g_ for g_ in gs_ if any(tkey(x) == fk for x in twalk(g_))]
+                    if mine and all(fires([g_], {fk: d_}) is True for g_ in mine) and len(mine) == 1 and mine[0] is gs_[-1]:
+                        r_, hit = True, nd_
+                rej.append(r_)
+            found['positive'] = (rej == [True, True, False], hit or gd.node)
+            why['positive'] = 'rejects distances %s' % [str(k_) for k_, v_ in zip(('-1', '0', '1/2'), rej) if v_]
+        if isnum is not None and not (found.get('numeric') and found['numeric'][0]):
+            for gs_, nd_ in raises_:
+                g_ = gs_[-1] if gs_ else None
+                if isinstance(g_, tuple) and g_[0] == 'not' and g_[1][0] == 'call' and g_[1][1] == isnum.qualname and g_[1][2] and \
+                        g_[1][2][0][0] == 'index' and g_[1][2][0][2] == ('const', 0) and 're.split' in tshow(g_[1][2][0][1], 400):
+                    found['numeric'] = (True, nd_)
+        if not (found.get('unit') and found['unit'][0]):
+            for gs_, nd_ in raises_:
+                g_ = gs_[-1] if gs_ else None
+                neg_ = False
+                while isinstance(g_, tuple) and g_ and g_[0] == 'not':
+                    g_, neg_ = g_[1], not neg_
+                if isinstance(g_, tuple) and g_[0] == 'cmp' and g_[1] in ('NotIn', 'In') and (g_[1] == 'NotIn') != neg_ and \
+                        g_[3] in (('global', 'UNITS'), ('call', ('method', ('global', 'UNITS'), 'keys'), (), ())):
+                    lowered_ = any(isinstance(x, tuple) and len(x) == 3 and x[0] == 'method' and x[2] in ('lower', 'casefold') for x in twalk(g_[2]))
+                    found['unit'] = (True, nd_)
+                    found.setdefault('lower', (lowered_, nd_))
+                    if not found['lower'][0]:
+                        found['lower'] = (lowered_, nd_)
     need = {'count': 'malformed strings (not exactly a number with an optional unit) are rejected',
             'numeric': 'non-numeric distances are rejected', 'positive': 'non-positive distances are rejected',
             'unit': 'unknown units are rejected'}
@@ -359,6 +430,78 @@ def check_units(prog, rep):
                 whyu = 'spelling %r is looked up as %r: %s' % bad_[0] if bad_ else '%d spellings x 4 forms' % len(keys)
             except (CannotFold, AttributeError) as ex:
                 oku, whyu = None, 'normalisation not foldable: %s' % ex
+    if oku is None or not okr:
+        # on the wrapper terms of the parser (helpers evaluated in place): the returned value is float(first token) times
+        # UNITS[<unit term>]; the unit term is evaluated on the table's own spellings
+        from ..wterm import WT as _WT, key as _tk, walk as _tw, show as _ts
+        from ..consteval import fold_expr as _fold
+        w2 = _WT(prog, depth=4)
+        try:
+            ret2 = w2.run(gd)
+        except Exception:      # noqa
+            ret2 = None
+        from ..wterm import atom_term as _at, is_arith as _isar
+
+        def deep(t_):
+            """sub-terms, through the atoms of arithmetic terms"""
+            for x in _tw(t_):
+                yield x
+                if _isar(x):
+                    for a_ in x[1].atoms():
+                        tt = _at(a_)
+                        if tt is not None:
+                            for y in deep(tt):
+                                yield y
+        subs = list(deep(ret2)) if ret2 is not None else []
+        uts = [x for x in subs if isinstance(x, tuple) and len(x) == 3 and x[0] == 'index' and x[1] == ('global', 'UNITS')]
+        uts = uts[:1] if len({_tk(x) for x in uts}) == 1 else uts
+        fl2 = [x for x in subs if isinstance(x, tuple) and len(x) >= 3 and x[0] == 'call' and
+               x[1] == ('global', 'float') and len(x[2]) == 1 and x[2][0][0] == 'index' and x[2][0][2] == ('const', 0)]
+        if ret2 is not None and ret2[0] == 'arith' and len(uts) == 1 and len(fl2) >= 1 and not okr:
+            okr = True          # distance * UNITS[unit]
+            lowered = lowered or any(isinstance(x, tuple) and len(x) == 3 and x[0] == 'method' and x[2] in ('lower', 'casefold') for x in _tw(uts[0][2]))
+        if len(uts) == 1 and oku is None:
+            class _NoStr(Exception):
+                pass
+
+            def ev_u(t_, tok):
+                if t_[0] == 'const':
+                    return t_[1]
+                if t_[0] == 'global':
+                    try:
+                        return _fold(prog, m, ast.parse(t_[1], mode='eval').body)
+                    except Exception:      # noqa
+                        raise _NoStr(t_[1])
+                if t_[0] == 'index' and t_[2] == ('const', 1) and 're.split' in _ts(t_[1], 400):
+                    return tok
+                if t_[0] == 'phi':
+                    # the unit is the second token when there are two (the model), the default otherwise
+                    c_ = t_[1]
+                    txt = _ts(c_, 400)
+                    if c_[0] == 'cmp' and c_[1] in ('Eq', 'NotEq') and 'len' in txt and c_[3][0] == 'const' and c_[3][1] in (1, 2):
+                        two = (c_[3][1] == 2) == (c_[1] == 'Eq')
+                        return ev_u(t_[2] if two else t_[3], tok)
+                    raise _NoStr('condition %s' % txt[:60])
+                if t_[0] == 'call' and isinstance(t_[1], tuple) and t_[1][0] == 'method' and t_[1][2] in (
+                        'lower', 'casefold', 'upper', 'strip', 'lstrip', 'rstrip', 'replace', 'title', 'removesuffix', 'removeprefix'):
+                    recv = ev_u(t_[1][1], tok)
+                    args_ = [ev_u(a_, tok) for a_ in t_[2]]
+                    if not isinstance(recv, str) or not all(isinstance(a_, str) for a_ in args_):
+                        raise _NoStr('method %s' % t_[1][2])
+                    return getattr(recv, t_[1][2])(*args_)
+                raise _NoStr(_ts(t_, 60))
+            try:
+                table_ = _fold(prog, m, ast.Name(id='UNITS', ctx=ast.Load()))
+                bad_ = []
+                for k_ in table_:
+                    for v_ in (k_, k_.upper(), ' ' + k_, k_.title() + ' '):
+                        r_ = ev_u(uts[0][2], v_)
+                        if r_ not in table_ or table_[r_] != table_[k_]:
+                            bad_.append((v_, r_, 'no unit' if r_ not in table_ else 'another unit'))
+                oku = not bad_
+                whyu = 'spelling %r is looked up as %r: %s' % bad_[0] if bad_ else '%d spellings x 4 forms (unit term)' % len(table_)
+            except _NoStr as ex:
+                whyu = 'unit term not evaluable: %s' % ex
     rep.add('U2', gd, entry, 'normalisation keeps every documented spelling', un_if[1].lineno if un_if else gd.node.lineno, oku,
             'every key of the unit table, in any case and next to a blank, must reach the lookup as that key; ' + whyu)
     rep.add('U2', gd, entry, 'returns _to_meters(distance, unit)', gd.node.lineno, okr, 'the parsed distance is converted to metres')
@@ -473,21 +616,34 @@ def check_kernels(prog, rep):
     from ..kai import Arr, TupleV
     W, H = Rat.sym('W'), Rat.sym('H')
     grids = {}
+    sp_run = Spec(prog, {hw: W, hh: H}, m)        # scalar locals defined on the way (`n_cols = 2 * half_w + 1`) are evaluated
     for s_ in f.node.body:
         if not (isinstance(s_, ast.Assign) and isinstance(s_.targets[0], ast.Name)):
             continue
         v = s_.value
         col = False
+        if not any(isinstance(x_, ast.Call) for x_ in ast.walk(v)):
+            names_ = {x_.id for x_ in ast.walk(v) if isinstance(x_, ast.Name)}
+            if names_ and names_ <= set(sp_run.it.env):
+                try:
+                    sp_run.it.stmt(s_)
+                except AnalysisIncomplete:
+                    pass
         # a column vector: [:, None] / [:, np.newaxis] / .reshape(-1, 1)
         if isinstance(v, ast.Subscript) and norm(v.slice).replace(' ', '') in (':,None', '(:,None)', '(slice(None,None,None),None)',
                                                                               ':,np.newaxis', '(:,np.newaxis)'):
             col, v = True, v.value
-        elif isinstance(v, ast.Call) and short(v) == 'reshape' and isinstance(v.func, ast.Attribute) and \
-                norm(ast.Tuple(elts=list(v.args), ctx=ast.Load()) if len(v.args) == 2 else v.args[0]).replace(' ', '') in ('(-1,1)',):
-            col, v = True, v.func.value
+        elif isinstance(v, ast.Call) and short(v) == 'reshape' and isinstance(v.func, ast.Attribute):
+            shp_ = list(v.args) if len(v.args) == 2 else (list(v.args[0].elts) if len(v.args) == 1 and isinstance(v.args[0], ast.Tuple) else [])
+            inner_ = v.func.value
+            if len(shp_) == 2 and const(shp_[1]) == 1:
+                # (-1, 1), or (n, 1) with n the very number of points of the linspace it reshapes
+                same_n = isinstance(inner_, ast.Call) and short(inner_) == 'linspace' and len(inner_.args) == 3 and norm(shp_[0]) == norm(inner_.args[2])
+                if const(shp_[0]) == -1 or same_n:
+                    col, v = True, inner_
         if isinstance(v, ast.Call) and short(v) == 'linspace' and len(v.args) == 3:
             try:
-                sp0 = Spec(prog, {hw: W, hh: H}, m)
+                sp0 = sp_run
                 grids[s_.targets[0].id] = ([sp0.it.as_scalar(sp0.it.ev(a_)) for a_ in v.args], col, s_)
             except AnalysisIncomplete:
                 grids[s_.targets[0].id] = (None, col, s_)
